@@ -214,6 +214,19 @@ template <typename Obj> std::string dim_op(int i, Obj& x, const Draw& D, dimensi
 template <typename Obj> std::string remove_op(Obj& x, const Draw& D, bool& ret, bool go) { if (go) ret = x.remove_space_dimensions(D.vs); return "remove_space_dimensions({" + D.vs_s + "})"; }
 template <> std::string remove_op<Congruence>(Congruence&, const Draw&, bool&, bool) { return ""; }   // not in Congruence's interface
 
+// public values that a copy with another space dimension must preserve (for variables that survive)
+struct Snap { std::string kind; std::vector<Z> c; Z extra; };
+Snap snap(const Constraint& x) { Snap s; s.kind = std::to_string((int) x.type()); for (dimension_type i = 0; i < x.space_dimension(); ++i) s.c.push_back(x.coefficient(Variable(i))); s.extra = x.inhomogeneous_term(); return s; }
+Snap snap(const Generator& x) { Snap s; s.kind = std::to_string((int) x.type()); for (dimension_type i = 0; i < x.space_dimension(); ++i) s.c.push_back(x.coefficient(Variable(i))); s.extra = (x.is_point() || x.is_closure_point()) ? x.divisor() : Z(0); return s; }
+Snap snap(const Grid_Generator& x) { Snap s; s.kind = std::to_string((int) x.type()); for (dimension_type i = 0; i < x.space_dimension(); ++i) s.c.push_back(x.coefficient(Variable(i))); s.extra = x.is_line() ? Z(0) : x.divisor(); return s; }
+Snap snap(const Congruence& x) { Snap s; s.kind = x.is_equality() ? "eq" : "cg"; for (dimension_type i = 0; i < x.space_dimension(); ++i) s.c.push_back(x.coefficient(Variable(i))); s.extra = x.modulus() * 1000003 + x.inhomogeneous_term(); return s; }
+bool snap_preserved(const Snap& a, const Snap& b) { if (a.kind != b.kind || a.extra != b.extra) return false; for (size_t i = 0; i < a.c.size() && i < b.c.size(); ++i) if (a.c[i] != b.c[i]) return false; for (size_t i = a.c.size(); i < b.c.size(); ++i) if (b.c[i] != 0) return false; return true; }
+// objects that keep a special value in the last column of the underlying row
+const char* special_column(const Constraint& x) { return x.is_strict_inequality() ? "strict-inequality" : 0; }
+const char* special_column(const Generator& x) { return x.is_closure_point() ? "closure-point" : 0; }
+const char* special_column(const Grid_Generator& x) { return x.is_parameter() ? "parameter" : 0; }
+const char* special_column(const Congruence&) { return 0; }
+
 template <typename T> struct Pair { typename T::Obj d, s; Pair() : d(DENSE), s(SPARSE) {} };
 
 template <typename T> bool twins_agree(const Pair<T>& p, const std::string& op) {
@@ -224,7 +237,7 @@ template <typename T> bool twins_agree(const Pair<T>& p, const std::string& op) 
     size_t i = 0; while (i < a.size() && i < b.size() && a[i] == b[i]) ++i;
     size_t st = a.rfind(' ', i); std::string comp = st == std::string::npos ? "head" : a.substr(st + 1, 3);
     std::string cls; for (char ch : comp) if (isalpha((unsigned char) ch)) cls += ch; if (cls.empty()) cls = "value";
-    violation(std::string("C16.diff.") + T::name() + "." + op + ":" + cls, std::string("reps ") + rs(p.d.representation()) + rs(p.s.representation()) + "\n D: " + clip(a, 700) + "\n S: " + clip(b, 700));
+    viol(std::string("C16.diff.") + T::name() + "." + op + ":" + cls, std::string("reps ") + rs(p.d.representation()) + rs(p.s.representation()) + "\n D: " + clip(a, 700) + "\n S: " + clip(b, 700));
     return false;
   }
   return true;
@@ -235,6 +248,7 @@ template <typename T> void obj_history() {
   const int NP = 3; Pair<T> P[NP];
   const bool wide = coin(25); const int maxv = wide ? rnd(10, 40) : rnd(1, 6);
   std::string cn = T::name();
+  poison().clear();
   hx::count("obj.cases." + cn);
   for (int i = 0; i < NP; ++i) { std::string how; try { T::make(maxv, wide, P[i].d, P[i].s, how); } catch (const std::invalid_argument&) { --i; continue; } tr(" #" + std::to_string(i) + "=" + how); if (!twins_agree(P[i], "construct")) return; }
   for (int st = 0, steps = rnd(5, 14); st < steps && !hx::st().case_tainted; ++st) {
@@ -247,9 +261,19 @@ template <typename T> void obj_history() {
     RD_GUARD_BEGIN
     try {
       if (kind < 5) { int w = rnd(0, 3); op = dim_op(w, A.d, D, dim, false); if (!op.empty()) { tr(pre + op); dim_op(w, A.d, D, dim, true); dim_op(w, A.s, D, dim, true); } }
-      else if (kind < 7) { bool r1 = true, r2 = true; op = remove_op(A.d, D, r1, false); if (!op.empty()) { tr(pre + op); remove_op(A.d, D, r1, true); remove_op(A.s, D, r2, true); if (r1 != r2) { violation("C16.diff." + cn + ".remove_space_dimensions:return", "return values differ"); return; } } }
+      else if (kind < 7) { bool r1 = true, r2 = true; op = remove_op(A.d, D, r1, false); if (!op.empty()) { tr(pre + op); remove_op(A.d, D, r1, true); remove_op(A.s, D, r2, true); if (r1 != r2) { viol("C16.diff." + cn + ".remove_space_dimensions:return", "return values differ"); return; } } }
       else if (kind < 11) { int w = rnd(0, T::n_special() - 1); Representation r1 = rand_rep(), r2 = rand_rep(); TK::coin_fixed = coin(20); op = T::special(w, A.d, D, false);
-        if (!op.empty()) { tr(pre + op + "[" + rs(r1) + rs(r2) + "]"); T::rand_rep_fixed = r1; T::special(w, A.d, D, true); T::rand_rep_fixed = r2; T::special(w, A.s, D, true); } }
+        // Copying a strict inequality / closure point / parameter to another dimension leaves the epsilon coefficient / divisor in
+        // its old column (defect, both representations alike; it poisons what follows: division by a zero divisor): visited rarely.
+        const char* sc = special_column(A.d); bool fragile = w <= 1 && sc && (dimension_type) D.n != dim;
+        if (fragile && !coin((int) hx::opt().geti("copydim", 15))) { hx::count("obj.skip.copy_dim_special_column"); op.clear(); }
+        // truncating DENSE -> SPARSE copy keeps the cut-off elements in the sparse row (defect): visited rarely, and named
+        if (w == 1 && (dimension_type) D.n < dim) { bool td = (A.d.representation() == DENSE && r1 == SPARSE) || (A.s.representation() == DENSE && r2 == SPARSE);
+          if (td && !coin((int) hx::opt().geti("truncds", 10))) { if (A.d.representation() == DENSE) r1 = DENSE; if (A.s.representation() == DENSE) r2 = DENSE; td = false; }
+          if (td && !op.empty()) poison() = "truncating-dense-to-sparse"; }
+        if (!op.empty()) { tr(pre + op + "[" + rs(r1) + rs(r2) + "]"); Snap before = snap(A.d); T::rand_rep_fixed = r1; T::special(w, A.d, D, true); T::rand_rep_fixed = r2; T::special(w, A.s, D, true);
+          if (w <= 1) { checked(); Snap ad = snap(A.d), as = snap(A.s);
+            if (!snap_preserved(before, ad) || !snap_preserved(before, as)) { viol("C16.diff." + cn + "." + op.substr(0, op.find('(')) + (fragile ? std::string(":") + sc + "-special-column-misplaced" : ":value-not-preserved"), "copy to dimension " + std::to_string(D.n) + " does not preserve the public value: " + clip(sig(A.d), 300) + " / " + clip(sig(A.s), 300)); return; } } } }
       else if (kind < 12) { op = "set_representation"; Representation r1 = rand_rep(), r2 = rand_rep(); tr(pre + op + "(" + rs(r1) + rs(r2) + ")"); A.d.set_representation(r1); A.s.set_representation(r2); hx::count("obj.repr_flips"); }
       else if (kind < 13) { int how = rnd(0, 3); op = how == 0 ? "assign" : how == 1 ? "copy_repr" : how == 2 ? "m_swap" : "swap"; tr(pre + op + "(#" + std::to_string(b) + ")");
         if (how == 0) { A.d = coin() ? B.d : B.s; A.s = coin() ? B.d : B.s; }
@@ -260,31 +284,35 @@ template <typename T> void obj_history() {
       else if (kind < 16) { // ascii round trip
         op = "ascii_load"; bool intoD = coin(); Representation r = rand_rep(); tr(pre + op + "(" + (intoD ? "d" : "s") + "," + rs(r) + ")");
         const Obj& src = intoD ? A.d : A.s; std::string t1 = dump(src); Obj L(r); std::istringstream in(t1); checked(); hx::count("ascii_roundtrips");
-        if (!L.ascii_load(in)) { violation("C15.row." + cn + ".ascii_load_failed", clip(t1)); return; }
-        std::string t2 = dump(L); if (t1 != t2) { violation("C15.row." + cn + ".redump_differs", clip(t1) + " vs " + clip(t2)); return; }
-        if (sig(L) != sig(src)) { violation("C15.row." + cn + ".value_differs", clip(sig(L)) + " vs " + clip(sig(src))); return; }
+        if (!L.ascii_load(in)) { viol("C15.row." + cn + ".ascii_load_failed", clip(t1)); return; }
+        std::string t2 = dump(L); if (t1 != t2) { viol("C15.row." + cn + ".redump_differs", clip(t1) + " vs " + clip(t2)); return; }
+        if (sig(L) != sig(src)) { viol("C15.row." + cn + ".value_differs", clip(sig(L)) + " vs " + clip(sig(src))); return; }
         if (intoD) A.d.m_swap(L); else A.s.m_swap(L); }
       else { // binary predicates, four representation combinations must agree
         op = "binary_queries"; tr(pre + op + "(#" + std::to_string(b) + ")");
         const Obj* xs[2] = { &A.d, &A.s }; const Obj* ys[2] = { &B.d, &B.s };
-        bool e0 = false, q0 = false, o0 = false; int c0 = 0;
+        int e0 = 0, q0 = 0, o0 = 0, c0 = 0;
         for (int p = 0; p < 2; ++p) for (int q = 0; q < 2; ++q) {
           checked(); hx::count("obj.binary_query_combos");
-          bool e = T::equal_to(*xs[p], *ys[q]), qv = false, o = T::eqop(*xs[p], *ys[q]); int c = T::cmp(*xs[p], *ys[q]);
-          bool qv_ok = true; try { qv = T::equivalent_to(*xs[p], *ys[q]); } catch (const std::exception&) { qv_ok = false; }
-          if (!qv_ok) qv = false;
+          // objects of different topologies (strict vs non-strict, closure point vs point) are outside the contract of
+          // some of these: an exception is recorded as an answer and must then be the answer of all four combinations
+          int e = 9, qv = 9, o = 9, c = 99;
+          try { e = T::equal_to(*xs[p], *ys[q]); } catch (const std::exception&) { }
+          try { qv = T::equivalent_to(*xs[p], *ys[q]); } catch (const std::exception&) { }
+          try { o = T::eqop(*xs[p], *ys[q]); } catch (const std::exception&) { }
+          try { c = T::cmp(*xs[p], *ys[q]); } catch (const std::exception&) { }
           if (p == 0 && q == 0) { e0 = e; q0 = qv; o0 = o; c0 = c; continue; }
           std::string rc = std::string(rs(xs[p]->representation())) + rs(ys[q]->representation());
-          if (e != e0) { violation("C16.diff." + cn + ".is_equal_to:" + rc, clip(sig(*xs[p])) + " vs " + clip(sig(*ys[q]))); return; }
-          if (qv != q0) { violation("C16.diff." + cn + ".is_equivalent_to:" + rc, clip(sig(*xs[p])) + " vs " + clip(sig(*ys[q]))); return; }
-          if (o != o0) { violation("C16.diff." + cn + ".operator_eq:" + rc, clip(sig(*xs[p])) + " vs " + clip(sig(*ys[q]))); return; }
-          if (c != c0) { violation("C16.diff." + cn + ".compare:" + rc, std::to_string(c) + " vs " + std::to_string(c0) + " " + clip(sig(*xs[p])) + " vs " + clip(sig(*ys[q]))); return; }
+          if (e != e0) { viol("C16.diff." + cn + ".is_equal_to:" + rc, clip(sig(*xs[p])) + " vs " + clip(sig(*ys[q]))); return; }
+          if (qv != q0) { viol("C16.diff." + cn + ".is_equivalent_to:" + rc, clip(sig(*xs[p])) + " vs " + clip(sig(*ys[q]))); return; }
+          if (o != o0) { viol("C16.diff." + cn + ".operator_eq:" + rc, clip(sig(*xs[p])) + " vs " + clip(sig(*ys[q]))); return; }
+          if (c != c0) { viol("C16.diff." + cn + ".compare:" + rc, std::to_string(c) + " vs " + std::to_string(c0) + " " + clip(sig(*xs[p])) + " vs " + clip(sig(*ys[q]))); return; }
         }
         // a twin compared with its own twin
-        checked(); if (!T::equal_to(A.d, A.s) || !T::equal_to(A.s, A.d) || T::cmp(A.d, A.s) != 0 || !T::eqop(A.d, A.s)) { violation("C16.diff." + cn + ".twin_self_compare", clip(sig(A.d))); return; }
+        checked(); if (!T::equal_to(A.d, A.s) || !T::equal_to(A.s, A.d) || T::cmp(A.d, A.s) != 0 || !T::eqop(A.d, A.s)) { viol("C16.diff." + cn + ".twin_self_compare", clip(sig(A.d))); return; }
       }
     } catch (const Logical_Timeout&) { throw; }
-    catch (const std::exception& e) { violation("C16.diff." + cn + "." + (op.empty() ? "unknown" : op.substr(0, op.find('('))) + ":unexpected-exception", std::string(typeid(e).name()) + ": " + e.what()); return; }
+    catch (const std::exception& e) { viol("C16.diff." + cn + "." + (op.empty() ? "unknown" : op.substr(0, op.find('('))) + ":unexpected-exception", std::string(typeid(e).name()) + ": " + e.what()); return; }
     RD_GUARD_END(cn + "." + op.substr(0, op.find('(')))
     if (op.empty()) continue;
     std::string opn = op.substr(0, op.find('('));
@@ -310,7 +338,7 @@ template <typename T> struct SPair { typename T::Sys d, s; SPair() : d(DENSE), s
 template <typename T> bool sys_agree(const SPair<T>& p, const std::string& op) {
   checked(); std::string a = sig(p.d), b = sig(p.s);
   if (a != b) { size_t i = 0; while (i < a.size() && i < b.size() && a[i] == b[i]) ++i; size_t from = i > 120 ? i - 120 : 0;
-    violation(std::string("C16.diff.") + T::name() + "_System." + op, std::string("reps ") + rs(p.d.representation()) + rs(p.s.representation()) + " first difference at " + std::to_string(i) + "\n D: ..." + clip(a.substr(from), 500) + "\n S: ..." + clip(b.substr(from), 500)); return false; }
+    viol(std::string("C16.diff.") + T::name() + "_System." + op, std::string("reps ") + rs(p.d.representation()) + rs(p.s.representation()) + " first difference at " + std::to_string(i) + "\n D: ..." + clip(a.substr(from), 500) + "\n S: ..." + clip(b.substr(from), 500)); return false; }
   return true;
 }
 
@@ -353,6 +381,7 @@ template <typename T> void sys_history() {
   const int NP = 2; SPair<T> P[NP];
   const bool wide = coin(20); const int maxv = wide ? rnd(10, 30) : rnd(1, 5);
   std::string cn = std::string(T::name()) + "_System";
+  poison().clear();
   hx::count("sys.cases." + cn);
   for (int st = 0, steps = rnd(6, 16); st < steps && !hx::st().case_tainted; ++st) {
     int a = rnd(0, NP - 1), b = 1 - a; SPair<T>& A = P[a]; SPair<T>& B = P[b];
@@ -367,7 +396,7 @@ template <typename T> void sys_history() {
         bool td = false, ts = false; std::string wd, ws;
         try { insert_one(A.d, od, recycle); } catch (const std::invalid_argument& e) { td = true; wd = e.what(); }
         try { insert_one(A.s, os, recycle); } catch (const std::invalid_argument& e) { ts = true; ws = e.what(); }
-        if (td != ts) { violation("C16.diff." + cn + ".insert:exception", "only one twin threw: " + wd + ws); return; } }
+        if (td != ts) { viol("C16.diff." + cn + ".insert:exception", "only one twin threw: " + wd + ws); return; } }
       else if (kind < 10) { op = "set_representation"; Representation r1 = rand_rep(), r2 = rand_rep(); tr(pre + op + "(" + rs(r1) + rs(r2) + ")"); A.d.set_representation(r1); A.s.set_representation(r2); hx::count("sys.repr_flips"); }
       else if (kind < 12) { int how = rnd(0, 4); op = how == 0 ? "assign" : how == 1 ? "copy_repr" : how == 2 ? "m_swap" : how == 3 ? "swap" : "clear"; tr(pre + op);
         if (how == 0) { A.d = coin() ? B.d : B.s; A.s = coin() ? B.d : B.s; }
@@ -377,14 +406,14 @@ template <typename T> void sys_history() {
         else { A.d.clear(); A.s.clear(); } }
       else if (kind < 15) { int w = rnd(0, 11); op = sys_special<T>(w, A.d, D, B.d, false); if (!op.empty()) { tr(pre + op); sys_special<T>(w, A.d, D, coin() ? B.d : B.s, true); sys_special<T>(w, A.s, D, coin() ? B.d : B.s, true); } }
       else if (kind < 17) { op = "ascii_load"; bool intoD = coin(); tr(pre + op + (intoD ? "(d)" : "(s)")); const Sys& src = intoD ? A.d : A.s; std::string t1 = dump(src); Sys L(rand_rep()); std::istringstream in(t1); checked(); hx::count("ascii_roundtrips");
-        if (!L.ascii_load(in)) { violation("C15.row." + cn + ".ascii_load_failed", clip(t1)); return; }
-        std::string t2 = dump(L); if (t1 != t2) { violation("C15.row." + cn + ".redump_differs", clip(t1) + " vs " + clip(t2)); return; }
-        if (sig(L) != sig(src)) { violation("C15.row." + cn + ".value_differs", clip(sig(L))); return; }
-        if (L.representation() != src.representation()) { violation("C15.row." + cn + ".representation_differs", "loaded system has another representation"); return; }
+        if (!L.ascii_load(in)) { viol("C15.row." + cn + ".ascii_load_failed", clip(t1)); return; }
+        std::string t2 = dump(L); if (t1 != t2) { viol("C15.row." + cn + ".redump_differs", clip(t1) + " vs " + clip(t2)); return; }
+        if (sig(L) != sig(src)) { viol("C15.row." + cn + ".value_differs", clip(sig(L))); return; }
+        if (L.representation() != src.representation()) { viol("C15.row." + cn + ".representation_differs", "loaded system has another representation"); return; }
         if (intoD) A.d.m_swap(L); else A.s.m_swap(L); }
       else { op = "client"; tr(pre + op); if (!client_check(A, pre)) return; }
     } catch (const Logical_Timeout&) { throw; }
-    catch (const std::exception& e) { violation("C16.diff." + cn + "." + (op.empty() ? "unknown" : op.substr(0, op.find('('))) + ":unexpected-exception", std::string(typeid(e).name()) + ": " + e.what()); return; }
+    catch (const std::exception& e) { viol("C16.diff." + cn + "." + (op.empty() ? "unknown" : op.substr(0, op.find('('))) + ":unexpected-exception", std::string(typeid(e).name()) + ": " + e.what()); return; }
     RD_GUARD_END(cn + "." + op.substr(0, op.find('(')))
     if (op.empty()) continue;
     std::string opn = op.substr(0, op.find('('));
@@ -409,7 +438,7 @@ template <typename PH> bool dom_agree(const PH& d, const PH& s, const std::strin
   if (a == b) return true;
   bool val = (d == s);
   size_t i = 0; while (i < a.size() && i < b.size() && a[i] == b[i]) ++i; size_t from = i > 150 ? i - 150 : 0;
-  violation("C16.diff." + dom + "." + op + (val ? ":text-only" : ":value"), "internal states differ from offset " + std::to_string(i) + "\n D: ..." + clip(a.substr(from), 500) + "\n S: ..." + clip(b.substr(from), 500));
+  viol("C16.diff." + dom + "." + op + (val ? ":text-only" : ":value"), "internal states differ from offset " + std::to_string(i) + "\n D: ..." + clip(a.substr(from), 500) + "\n S: ..." + clip(b.substr(from), 500));
   return false;
 }
 
@@ -417,7 +446,7 @@ template <typename PH, typename SYS> bool build_pair(const SYS& d, const SYS& s,
   bool td = false, ts = false; std::string w; pd = ps = 0;
   try { pd = new PH(d); } catch (const std::invalid_argument& e) { td = true; w = e.what(); }
   try { ps = new PH(s); } catch (const std::invalid_argument& e) { ts = true; w = e.what(); }
-  if (td != ts) { violation("C16.diff." + dom + ".construct:exception", "only one twin threw: " + w); delete pd; delete ps; pd = ps = 0; return false; }
+  if (td != ts) { viol("C16.diff." + dom + ".construct:exception", "only one twin threw: " + w); delete pd; delete ps; pd = ps = 0; return false; }
   return true;
 }
 
@@ -431,13 +460,13 @@ template <typename PH> bool poly_ops(PH& d, PH& s, const std::string& dom, int m
     case 0: op = "minimized_constraints"; (void) d.minimized_constraints(); (void) s.minimized_constraints(); break;
     case 1: op = "minimized_generators"; (void) d.minimized_generators(); (void) s.minimized_generators(); break;
     case 2: { op = "add_constraint"; Pair<TC> c; std::string how; TC::make(std::min<int>(dim, maxv), false, c.d, c.s, how); if (c.d.space_dimension() > dim || (c.d.is_strict_inequality() && !is_nnc(d))) continue; tr(" add_constraint(" + how + ")"); d.add_constraint(coin() ? c.d : c.s); s.add_constraint(coin() ? c.d : c.s); break; }
-    case 3: { op = "add_generator"; if (d.is_empty() != s.is_empty()) { violation("C16.diff." + dom + ".is_empty", "twins disagree"); return false; } if (d.is_empty()) continue; Pair<TG> g; std::string how; try { TG::make(std::min<int>(dim, maxv), false, g.d, g.s, how); } catch (const std::invalid_argument&) { continue; } if (g.d.space_dimension() > dim || (g.d.is_closure_point() && !is_nnc(d))) continue; tr(" add_generator(" + how + ")"); d.add_generator(coin() ? g.d : g.s); s.add_generator(coin() ? g.d : g.s); break; }
+    case 3: { op = "add_generator"; if (d.is_empty() != s.is_empty()) { viol("C16.diff." + dom + ".is_empty", "twins disagree"); return false; } if (d.is_empty()) continue; Pair<TG> g; std::string how; try { TG::make(std::min<int>(dim, maxv), false, g.d, g.s, how); } catch (const std::invalid_argument&) { continue; } if (g.d.space_dimension() > dim || (g.d.is_closure_point() && !is_nnc(d))) continue; tr(" add_generator(" + how + ")"); d.add_generator(coin() ? g.d : g.s); s.add_generator(coin() ? g.d : g.s); break; }
     case 4: { if (dim == 0) continue; op = "affine_image"; Draw D(dim, maxv); tr(" affine_image(" + std::to_string(D.v) + "," + str(D.ex) + "," + zs(D.k) + ")"); d.affine_image(Variable(D.v), D.ex, D.k); s.affine_image(Variable(D.v), D.ex, D.k); break; }
     case 5: { if (dim == 0) continue; op = "affine_preimage"; Draw D(dim, maxv); tr(" affine_preimage(" + std::to_string(D.v) + "," + str(D.ex) + "," + zs(D.k) + ")"); d.affine_preimage(Variable(D.v), D.ex, D.k); s.affine_preimage(Variable(D.v), D.ex, D.k); break; }
     case 6: { op = "remove_space_dimensions"; Draw D(dim, maxv); tr(" remove_space_dimensions({" + D.vs_s + "})"); d.remove_space_dimensions(D.vs); s.remove_space_dimensions(D.vs); break; }
     case 7: { op = "add_space_dimensions"; int n2 = rnd(1, 2); bool emb = coin(); tr(emb ? " add_space_dimensions_and_embed" : " add_space_dimensions_and_project"); if (emb) { d.add_space_dimensions_and_embed(n2); s.add_space_dimensions_and_embed(n2); } else { d.add_space_dimensions_and_project(n2); s.add_space_dimensions_and_project(n2); } break; }
     case 8: { op = "self_hull_of_copies"; tr(" poly_hull/intersection with cross copies"); PH cd(d), cs(s); if (coin()) { d.upper_bound_assign(cs); s.upper_bound_assign(cd); } else { d.intersection_assign(cs); s.intersection_assign(cd); } break; }
-    default: { op = "queries"; tr(" queries"); checked(); if (d.is_empty() != s.is_empty() || d.is_universe() != s.is_universe() || d.is_bounded() != s.is_bounded() || d.affine_dimension() != s.affine_dimension() || !(d == s) || !d.contains(s) || !s.contains(d)) { violation("C16.diff." + dom + ".queries", "twins answer differently"); return false; } break; }
+    default: { op = "queries"; tr(" queries"); checked(); if (d.is_empty() != s.is_empty() || d.is_universe() != s.is_universe() || d.is_bounded() != s.is_bounded() || d.affine_dimension() != s.affine_dimension() || !(d == s) || !d.contains(s) || !s.contains(d)) { viol("C16.diff." + dom + ".queries", "twins answer differently"); return false; } break; }
     }
     hx::count("op.client." + dom + "." + op);
     if (!dom_agree(d, s, dom, op)) return false;
@@ -454,13 +483,13 @@ bool grid_ops(Grid& d, Grid& s, int maxv) {
     case 0: op = "minimized_congruences"; (void) d.minimized_congruences(); (void) s.minimized_congruences(); break;
     case 1: op = "minimized_grid_generators"; (void) d.minimized_grid_generators(); (void) s.minimized_grid_generators(); break;
     case 2: { op = "add_congruence"; Pair<TK> c; std::string how; TK::make(std::min<int>(dim, maxv), false, c.d, c.s, how); if (c.d.space_dimension() > dim) continue; tr(" add_congruence(" + how + ")"); d.add_congruence(coin() ? c.d : c.s); s.add_congruence(coin() ? c.d : c.s); break; }
-    case 3: { op = "add_grid_generator"; if (d.is_empty() != s.is_empty()) { violation("C16.diff.Grid.is_empty", "twins disagree"); return false; } if (d.is_empty()) continue; Pair<TGG> g; std::string how; try { TGG::make(std::min<int>(dim, maxv), false, g.d, g.s, how); } catch (const std::invalid_argument&) { continue; } if (g.d.space_dimension() > dim) continue; tr(" add_grid_generator(" + how + ")"); d.add_grid_generator(coin() ? g.d : g.s); s.add_grid_generator(coin() ? g.d : g.s); break; }
+    case 3: { op = "add_grid_generator"; if (d.is_empty() != s.is_empty()) { viol("C16.diff.Grid.is_empty", "twins disagree"); return false; } if (d.is_empty()) continue; Pair<TGG> g; std::string how; try { TGG::make(std::min<int>(dim, maxv), false, g.d, g.s, how); } catch (const std::invalid_argument&) { continue; } if (g.d.space_dimension() > dim) continue; tr(" add_grid_generator(" + how + ")"); d.add_grid_generator(coin() ? g.d : g.s); s.add_grid_generator(coin() ? g.d : g.s); break; }
     case 4: { if (dim == 0) continue; op = "affine_image"; Draw D(dim, maxv); tr(" affine_image(" + std::to_string(D.v) + "," + str(D.ex) + "," + zs(D.k) + ")"); d.affine_image(Variable(D.v), D.ex, D.k); s.affine_image(Variable(D.v), D.ex, D.k); break; }
     case 5: { if (dim == 0) continue; op = "affine_preimage"; Draw D(dim, maxv); tr(" affine_preimage(" + std::to_string(D.v) + "," + str(D.ex) + "," + zs(D.k) + ")"); d.affine_preimage(Variable(D.v), D.ex, D.k); s.affine_preimage(Variable(D.v), D.ex, D.k); break; }
     case 6: { op = "remove_space_dimensions"; Draw D(dim, maxv); tr(" remove_space_dimensions({" + D.vs_s + "})"); d.remove_space_dimensions(D.vs); s.remove_space_dimensions(D.vs); break; }
     case 7: { op = "add_space_dimensions"; int n2 = rnd(1, 2); bool emb = coin(); tr(emb ? " add_space_dimensions_and_embed" : " add_space_dimensions_and_project"); if (emb) { d.add_space_dimensions_and_embed(n2); s.add_space_dimensions_and_embed(n2); } else { d.add_space_dimensions_and_project(n2); s.add_space_dimensions_and_project(n2); } break; }
     case 8: { op = "cross_copies"; tr(" join/meet with cross copies"); Grid cd(d), cs(s); if (coin()) { d.upper_bound_assign(cs); s.upper_bound_assign(cd); } else { d.intersection_assign(cs); s.intersection_assign(cd); } break; }
-    default: { op = "queries"; tr(" queries"); checked(); if (d.is_empty() != s.is_empty() || d.is_universe() != s.is_universe() || d.is_bounded() != s.is_bounded() || d.is_discrete() != s.is_discrete() || d.affine_dimension() != s.affine_dimension() || !(d == s) || !d.contains(s) || !s.contains(d)) { violation("C16.diff.Grid.queries", "twins answer differently"); return false; } break; }
+    default: { op = "queries"; tr(" queries"); checked(); if (d.is_empty() != s.is_empty() || d.is_universe() != s.is_universe() || d.is_bounded() != s.is_bounded() || d.is_discrete() != s.is_discrete() || d.affine_dimension() != s.affine_dimension() || !(d == s) || !d.contains(s) || !s.contains(d)) { viol("C16.diff.Grid.queries", "twins answer differently"); return false; } break; }
     }
     hx::count("op.client.Grid." + op);
     if (!dom_agree(d, s, dom, op)) return false;
@@ -481,15 +510,15 @@ template <> bool client_check<TG>(SPair<TG>& A, const std::string&) {
 template <> bool client_check<TK>(SPair<TK>& A, const std::string&) {
   Grid* pd; Grid* ps; if (!build_pair(A.d, A.s, pd, ps, "Grid")) return false; if (!pd) return true; hx::count("client.Grid.from_congruences"); bool ok = grid_ops(*pd, *ps, 4); delete pd; delete ps;
   if (ok && coin(30)) { // conversions between system kinds
-    checked(); Constraint_System cd(A.d, DENSE), cs(A.s, SPARSE); if (sig(cd) != sig(cs)) { violation("C16.diff.Constraint_System.from_congruence_system", clip(sig(cd)) + " vs " + clip(sig(cs))); return false; }
-    Congruence_System kd(cd, DENSE), ks(cs, SPARSE); if (sig(kd) != sig(ks)) { violation("C16.diff.Congruence_System.from_constraint_system", clip(sig(kd)) + " vs " + clip(sig(ks))); return false; }
-    if (A.d.is_equal_to(A.s) != true || A.s.is_equal_to(A.d) != true) { violation("C16.diff.Congruence_System.is_equal_to", "twin systems are not is_equal_to"); return false; }
+    checked(); Constraint_System cd(A.d, DENSE), cs(A.s, SPARSE); if (sig(cd) != sig(cs)) { viol("C16.diff.Constraint_System.from_congruence_system", clip(sig(cd)) + " vs " + clip(sig(cs))); return false; }
+    Congruence_System kd(cd, DENSE), ks(cs, SPARSE); if (sig(kd) != sig(ks)) { viol("C16.diff.Congruence_System.from_constraint_system", clip(sig(kd)) + " vs " + clip(sig(ks))); return false; }
+    if (A.d.is_equal_to(A.s) != true || A.s.is_equal_to(A.d) != true) { viol("C16.diff.Congruence_System.is_equal_to", "twin systems are not is_equal_to"); return false; }
   }
   return ok;
 }
 template <> bool client_check<TGG>(SPair<TGG>& A, const std::string&) {
   Grid* pd; Grid* ps; if (!build_pair(A.d, A.s, pd, ps, "Grid")) return false; if (!pd) return true; hx::count("client.Grid.from_generators"); bool ok = grid_ops(*pd, *ps, 4); delete pd; delete ps;
-  if (ok) { checked(); if (!A.d.is_equal_to(A.s) || !A.s.is_equal_to(A.d)) { violation("C16.diff.Grid_Generator_System.is_equal_to", "twin systems are not is_equal_to"); return false; } }
+  if (ok) { checked(); if (!A.d.is_equal_to(A.s) || !A.s.is_equal_to(A.d)) { viol("C16.diff.Grid_Generator_System.is_equal_to", "twin systems are not is_equal_to"); return false; } }
   return ok;
 }
 
